@@ -114,6 +114,29 @@ def wl_remove_readd(ctx, rng, case):
     case.nontrivial = True
 
 
+def wl_wide_fingerprints(ctx, rng, case):
+    """plain filters sized by a very small error rate (33..43 fingerprint bits, wider than the 4-byte slot of the export format): the table stays
+    well-formed in memory, and whenever an export goes through (every stored fingerprint happens to fit, or the exporter narrows them)
+    the table LOADED from it is inspected under the same invariant"""
+    if not ctx.state.get("icontract"):
+        raise Inconclusive("icontract unavailable")
+    cfg = ck.gen_cfg(rng, counting=False, allow_rate=False)
+    cfg.by_error_rate(rng.choice([33, 34, 37, 40, 43]))
+    cfg.capacity = rng.choice([3, 4, 5, 7, 8, 12])
+    cfg.auto_expand = True
+    keys = ck.gen_keys(rng, cfg, rng.randint(6, 16))
+    if len(keys) < 3:
+        return
+    ops = [("add", k) for k in keys[: rng.randint(2, len(keys))]] + ck.gen_history(rng, keys, rng.randint(4, 12), p_remove=0.15, p_expand=0.05, p_reload=0.35)
+    case.desc = dict(cfg.desc(), n_keys=len(keys), kind="fingerprints wider than the export slot")
+    for op in ops:
+        case.op(*op)
+    ex, stats = explore(ctx, rng, case, cfg, keys, ops, 20 if ctx.tier == "quick" else 300, extra=4 if ctx.tier == "quick" else 40)
+    ctx.count("wide_fingerprint_exports_loaded_and_inspected", stats["wide_fingerprint_exports_loaded_and_inspected"])
+    ctx.count("exports_refused_for_fingerprints_wider_than_the_slot", stats["exports_refused_for_fingerprints_wider_than_the_slot"])
+    case.nontrivial = True
+
+
 def wl_long(ctx, rng, case):
     """long-lived tables under the invariant: 40-100 operations on tiny auto-expanding tables (several expansions, removals, reloads)"""
     if not ctx.state.get("icontract"):
@@ -187,6 +210,7 @@ PROP = Prop(
         Workload("remove_readd", wl_remove_readd, quick=100, thorough=2500),
         Workload("histories", wl_histories, quick=200, thorough=4000),
         Workload("long", wl_long, quick=30, thorough=1500),
+        Workload("wide_fingerprints", wl_wide_fingerprints, quick=48, thorough=1200),
     ],
     assumptions=["candidate buckets are recomputed independently: fp mod capacity and hash(str(fp)) mod capacity with the hash function the harness supplied "
                  "(reference FNV-1a for the default)", "invariants are evaluated at quiescent points: before/after public calls (icontract) and after every call (explicit)",
